@@ -113,6 +113,12 @@ impl CachedBlocks {
     (&self.rom_low, &self.rom_high)
   }
 
+  /// Select which bank the switchable ROM region (0x4000-0x7fff) caches and
+  /// looks up blocks for
+  pub fn set_rom_bank(&mut self, bank: u16) {
+    self.rom_high.set_bank(bank);
+  }
+
   pub fn new() -> Self {
     Self {
       rom_low: CacheRegion::new(0),
